@@ -322,6 +322,11 @@ SetupsQuick ==
     [pre |-> <<Magic, SubEph, RdyMid>>, d |-> 2],           \* subscribed, two messages in flight
     [pre |-> <<Magic, SubEph, RdyOne>>, d |-> 2],           \* subscribed, one in flight, one queued
     [pre |-> <<Magic, SubEph, RdyMid, ClsCmd>>, d |-> 2] }  \* closing, two in flight
+\* every class at BOTH positions (used with PrefixFine = TRUE): all pairs from a fresh connection and from
+\* a subscribed one with two messages in flight
+SetupsFine ==
+  { [pre |-> <<>>, d |-> 2],
+    [pre |-> <<Magic, SubEph, RdyMid>>, d |-> 2] }
 SetupsThorough ==
   { [pre |-> <<>>, d |-> 4],
     [pre |-> <<Magic, SubEph, RdyMid>>, d |-> 3],
